@@ -79,9 +79,271 @@ def arm_tokens(F, X, b, start):
     return out
 
 
+def find_encode_fn(F):
+    """the function (&HtlcFailReason) -> Vec<u8>: by signature (the match on the reason may sit in helpers it calls)"""
+    out = []
+    for b in F.code_bodies():
+        if b.kind not in ("Fn", "AssocFn") or b.ret_ty != "std::vec::Vec<u8>" or b.arg_count != 1:
+            continue
+        if canon(b.local_ty(1).lstrip("&").replace("mut ", "").strip()) != REASON_ADT:
+            continue
+        out.append(b)
+    return out
+
+
+class _Unknown(Exception):
+    pass
+
+
+def encode_tokens_for_variant(F, X, b, variant, self_locals=(1,), buf_locals=None, depth=0, toks=None):
+    """Partial evaluation of the encoder for one variant of the reason: walk the CFG taking, at every match on `self`,
+    the arm of `variant`; record in order what is appended to the output vector - `vec![..]` literals, push,
+    extend_from_slice(x.to_be_bytes()), BufMut::put_u8/u16/u32/u64 - looking into local helpers that get `self` or the
+    buffer.  tokens: ('bytes', [ints]) | ('be'|'le', field, ty) | ('unknown', text)"""
+    toks = toks if toks is not None else []
+    if depth > 4:
+        toks.append(("unknown", "helper nesting"))
+        return toks
+    self_set = set(self_locals)
+    # locals that alias self (copies / reborrows)
+    for _ in range(4):
+        for l, ds in b.defs.items():
+            for d in ds:
+                if d[3] == "rv" and not d[2] and d[4]["k"] in ("use", "ref"):
+                    src = d[4]["op"]["pl"] if d[4]["k"] == "use" and d[4]["op"]["k"] in ("copy", "move") else (d[4]["pl"] if d[4]["k"] == "ref" else None)
+                    if src is not None and src["l"] in self_set and not [p for p in src["p"] if p["k"] != "deref"]:
+                        self_set.add(l)
+
+    def rooted_in_self(pl):
+        return pl["l"] in self_set
+
+    def val(op):
+        """int | ('field', name, ty) | None for an operand, under the knowledge that self is `variant`"""
+        e = strip(X.operand(b, op))
+        return val_expr(e)
+
+    def val_expr(e):
+        if e[0] == "const" and e[2] is not None:
+            return e[2]
+        if e[0] == "cast":
+            # only a lossless widening is looked through; a narrowing cast changes the bytes that are written
+            if e[1].startswith("IntToInt") and e[2] in lib.INT_RANGES and e[3] in lib.INT_RANGES and \
+                    lib.INT_RANGES[e[3]][0] <= lib.INT_RANGES[e[2]][0] and lib.INT_RANGES[e[2]][1] <= lib.INT_RANGES[e[3]][1]:
+                inner = val_expr(e[4])
+                return inner if isinstance(inner, int) else None      # a widened *field* is no longer the field's own width
+            return None
+        if e[0] == "bin" and e[1] in ("BitOr", "Add", "BitAnd", "Shl", "Shr", "Mul"):
+            a, c = val_expr(e[2]), val_expr(e[3])
+            if isinstance(a, int) and isinstance(c, int):
+                return {"BitOr": a | c, "Add": a + c, "BitAnd": a & c, "Shl": a << c, "Shr": a >> c, "Mul": a * c}[e[1]]
+            return None
+        if e[0] == "field" and e[1] == "0" and e[4][0] == "bin" and e[4][1].endswith("WithOverflow"):
+            return val_expr(("bin", e[4][1][:-len("WithOverflow")], e[4][2], e[4][3], e[4][4]))
+        if e[0] == "field" and e[2] == POLICY_ADT:
+            return ("field", e[1])
+        if e[0] == "call":
+            name = e[4].resolved or e[1]
+            hb = F.by_cdef.get(name)
+            if hb is not None and hb.kind in ("Fn", "AssocFn") and e[2] and any(x[0] == "param" and x[2] in self_locals for x in walk(e[2][0])):
+                # a value computed from self by a local helper (`self.code()`): its result on the arm of this variant
+                for ve, vf, cf, wh in def_alternatives(F, X, hb, {"k": "move", "pl": {"l": 0, "p": []}}):
+                    for fe, truth in vf:
+                        if truth == (variant,) and any(x[0] == "param" and x[1] == hb.cdef for x in walk(fe)):
+                            r = val_expr(strip(ve))
+                            if r is not None:
+                                return r
+                return None
+            m = re.match(r"core::num::<impl (\w+)>::to_(be|le|ne)_bytes$", e[1])
+            if m and e[2]:
+                inner = val_expr(e[2][0])
+                if isinstance(inner, tuple) and inner[0] == "field":
+                    return (m.group(2), inner[1], m.group(1))
+                if isinstance(inner, int):
+                    n = {"u8": 1, "u16": 2, "u32": 4, "u64": 8}.get(m.group(1))
+                    if n:
+                        bs = list(inner.to_bytes(n, "big" if m.group(2) == "be" else "little"))
+                        return ("bytes", bs)
+        if e[0] == "phi":
+            vs = {repr(val_expr(a)) for a in e[1]}
+            if len(vs) == 1:
+                return val_expr(e[1][0])
+        return None
+
+    def emit_int(v, nbytes, what):
+        if isinstance(v, int):
+            toks.append(("bytes", list((v % (1 << (8 * nbytes))).to_bytes(nbytes, "big"))))
+        elif isinstance(v, tuple) and v[0] == "field":
+            toks.append(("be", v[1], {1: "u8", 2: "u16", 4: "u32", 8: "u64"}[nbytes]))
+        else:
+            toks.append(("unknown", what))
+
+    cur = 0
+    seen = set()
+    while cur is not None:
+        if cur in seen:
+            toks.append(("unknown", "loop in the encoder"))
+            break
+        seen.add(cur)
+        blk = b.blocks[cur]
+        for st in blk["s"]:
+            if st["k"] == "assign" and st["rv"]["k"] == "agg" and st["rv"].get("ak") == "array" and st["rv"].get("ety") == "u8":
+                vals = []
+                for o in st["rv"]["ops"]:
+                    v = val(o)
+                    vals.append(v if isinstance(v, int) else None)
+                toks.append(("bytes", vals))
+        t = blk["t"]
+        k = t["k"]
+        if k == "return":
+            break
+        if k == "switch":
+            c = lib.decode_switch(b, cur)
+            nxt = None
+            if c is not None and c.kind == "enum" and c.place is not None and rooted_in_self(c.place) and getattr(c, "enum_ty", "") == REASON_ADT:
+                for v, tg in t["arms"]:
+                    if c.variants.get(v) == variant:
+                        nxt = tg
+                if nxt is None:
+                    nxt = t["otherwise"]
+            elif c is not None and c.kind == "enum" and c.place is not None:
+                # a match on a value derived from self through a helper is not followed
+                nxt = None
+            if nxt is None:
+                toks.append(("unknown", "branch inside the encoder that does not depend on the variant"))
+                break
+            cur = nxt
+            continue
+        if k == "call":
+            c = Call(b, cur, t)
+            name = c.resolved or c.name
+            if c.name in ("std::vec::Vec::extend_from_slice", "std::vec::Vec::extend", "std::iter::Extend::extend", "bytes::BufMut::put_slice", "bytes::BufMut::put") and len(c.args) > 1:
+                v = val_expr(strip(X.operand(b, c.args[1])))
+                if isinstance(v, tuple) and v[0] in ("be", "le", "ne"):
+                    toks.append(v)
+                elif isinstance(v, tuple) and v[0] == "bytes":
+                    toks.append(v)
+                else:
+                    e = strip(X.operand(b, c.args[1]))
+                    tok = ("unknown", show(e)[:80])
+                    for x in walk(e):
+                        if x[0] == "call":
+                            m = re.match(r"core::num::<impl (\w+)>::to_(be|le|ne)_bytes$", x[1])
+                            if m and x[2]:
+                                a = x[2][0]
+                                if a[0] == "cast":
+                                    tok = ("unknown", "cast before encoding: " + show(a)[:60])
+                                    break
+                                fld = a[1] if a[0] == "field" else show(a)[:40]
+                                tok = (m.group(2), fld, m.group(1))
+                                break
+                    toks.append(tok)
+            elif c.name == "std::vec::Vec::push" and "Vec::<u8>" in c.full and len(c.args) > 1:
+                emit_int(val(c.args[1]), 1, "push")
+            elif c.fn.get("trait") and canon(c.fn["trait"]) == "bytes::BufMut" and re.match(r"put_u(8|16|32|64)(_le)?$", c.mname or "") and len(c.args) > 1:
+                n = int(re.match(r"put_u(\d+)", c.mname).group(1)) // 8
+                if c.mname.endswith("_le"):
+                    v = val(c.args[1])
+                    toks.append(("le", v[1], "u%d" % (8 * n)) if isinstance(v, tuple) and v[0] == "field" else ("unknown", c.mname))
+                else:
+                    emit_int(val(c.args[1]), n, c.mname)
+            elif c.name in ("std::vec::Vec::insert", "std::vec::Vec::truncate", "std::vec::Vec::pop", "std::vec::Vec::clear",
+                            "std::vec::Vec::remove", "std::vec::Vec::reverse", "core::slice::<impl [T]>::reverse", "std::vec::Vec::resize"):
+                toks.append(("unknown", c.name))
+            else:
+                hb = F.by_cdef.get(name)
+                if hb is not None and hb.kind in ("Fn", "AssocFn") and hb.ret_ty in ("()",) and c.args:
+                    # a local helper that writes part of the encoding: given self (or the policy) and the buffer
+                    sl = []
+                    pol = False
+                    for i_, a in enumerate(c.args):
+                        if a["k"] in ("copy", "move"):
+                            ro = lib.root_operand(b, a)
+                            if ro["k"] in ("copy", "move") and ro["pl"]["l"] in self_set and not [p for p in ro["pl"]["p"] if p["k"] != "deref"]:
+                                sl.append(i_ + 1)
+                    if sl:
+                        encode_tokens_for_variant(F, X, hb, variant, tuple(sl), None, depth + 1, toks)
+                    else:
+                        # e.g. policy.put_wire(out): tokens of a helper on the policy payload
+                        sub = _policy_writer_tokens(F, X, hb)
+                        if sub is not None:
+                            toks.extend(sub)
+            cur = t["t"]
+            continue
+        succ = b.succ[cur]
+        if len(succ) != 1:
+            if len(succ) > 1:
+                toks.append(("unknown", "branch inside the encoder"))
+            break
+        cur = succ[0]
+    return toks
+
+
+def _policy_writer_tokens(F, X, hb):
+    """tokens written by a helper (&TrampolineRoutingPolicy, &mut buf): straight-line put_uNN(self.field)"""
+    if hb.arg_count < 1 or POLICY_ADT not in hb.local_ty(1):
+        return None
+    out = []
+    cur = 0
+    seen = set()
+    while cur is not None and cur not in seen:
+        seen.add(cur)
+        t = hb.blocks[cur]["t"]
+        if t["k"] == "call":
+            c = Call(hb, cur, t)
+            if c.fn.get("trait") and canon(c.fn["trait"]) == "bytes::BufMut" and re.match(r"put_u(8|16|32|64)(_le)?$", c.mname or "") and len(c.args) > 1:
+                e = strip(X.operand(hb, c.args[1]))
+                n = re.match(r"put_u(\d+)", c.mname).group(1)
+                if e[0] == "field" and e[2] == POLICY_ADT:
+                    out.append(("le" if c.mname.endswith("_le") else "be", e[1], "u" + n))
+                else:
+                    out.append(("unknown", show(e)[:60]))
+            elif c.name in ("std::vec::Vec::extend_from_slice", "bytes::BufMut::put_slice") and len(c.args) > 1:
+                e = strip(X.operand(hb, c.args[1]))
+                tok = ("unknown", show(e)[:60])
+                for x in walk(e):
+                    if x[0] == "call":
+                        m = re.match(r"core::num::<impl (\w+)>::to_(be|le|ne)_bytes$", x[1])
+                        if m and x[2] and x[2][0][0] == "field":
+                            tok = (m.group(2), x[2][0][1], m.group(1))
+                out.append(tok)
+            cur = t["t"]
+            continue
+        if t["k"] == "return":
+            break
+        succ = hb.succ[cur]
+        if len(succ) != 1:
+            return None
+        cur = succ[0]
+    return out
+
+
+def _merge_tokens(toks):
+    out = []
+    for t in toks:
+        if t[0] == "bytes" and out and out[-1][0] == "bytes":
+            out[-1] = ("bytes", out[-1][1] + t[1])
+        else:
+            out.append(t)
+    return out
+
+
 def encode_table(F, X):
-    """variant name -> (tokens, payload types) ; also returns the encode body"""
+    """variant name -> tokens ; also returns the encode body.  The encoder is found by its signature; each variant is
+    evaluated by walking the encoder (and the helpers it hands `self` to) along that variant's arms."""
     fe = find_encode(F)
+    fns = find_encode_fn(F)
+    if len(fns) > 1:
+        # `impl From<&HtlcFailReason> for Vec<u8>` delegating to `encode` (or the reverse): the one the others call
+        names = {f.cdef for f in fns}
+        leaf = [f for f in fns if not any((c.resolved or c.name) in names - {f.cdef} for c in f.calls)]
+        if len(leaf) == 1:
+            fns = leaf
+    if len(fns) == 1:
+        b = fns[0]
+        table = {}
+        for v in reason_variants(F):
+            table[v] = _merge_tokens(encode_tokens_for_variant(F, X, b, v))
+        return b, table
     if len(fe) != 1:
         return None, None
     b, bb, cond = fe[0]
